@@ -309,9 +309,17 @@ class DistributedNetwork(BaseManager):
         # Let the child know where we are in the distributed tree
         root, level = self._get_advertised_branch_values()
 
-        await peer.connection.send_message(DistributedBranchLevel.Request(level))
+        # Write both values before anything else can be handled: while a send
+        # is waiting for the socket our position can change and the children
+        # (this one included) are told the new values, a root sent only after
+        # the level went through would overwrite them with the old one
+        messages = [DistributedBranchLevel.Request(level)]
         if level != 0:
-            await peer.connection.send_message(DistributedBranchRoot.Request(root))
+            messages.append(DistributedBranchRoot.Request(root))
+
+        await asyncio.gather(*[
+            peer.connection.send_message(message) for message in messages
+        ])
 
         logger.debug(
             "added distributed connection as child (%d / %d children) : %s",
